@@ -1,7 +1,8 @@
 """Fault engine (DESIGN 2.4): from the fault-free trace of a scenario derive
   - one single-shot fault per op x applicable errno,
   - persistent conditions (read-only volume, full volume, directory not
-    writable, immutable entry, I/O errors below a directory),
+    writable, directory not searchable, immutable entry, I/O errors below a
+    directory),
   - seeded pairs of single shots,
 and re-run the scenario on an identically rebuilt world under each."""
 from __future__ import annotations
@@ -78,6 +79,7 @@ def conditions(trace, mounts, resolver):
     for d in sorted(dirs):
         out.append(({'kind': 'cond', 'what': 'dir_not_writable', 'dir': d}, ('cond', 'dir_not_writable', d)))
         out.append(({'kind': 'cond', 'what': 'eio_under', 'dir': d}, ('cond', 'eio_under', d)))
+        out.append(({'kind': 'cond', 'what': 'dir_not_searchable', 'dir': d}, ('cond', 'dir_not_searchable', d)))
     for x in sorted(entries):
         out.append(({'kind': 'cond', 'what': 'immutable', 'entry': x}, ('cond', 'immutable', x)))
     return out
